@@ -1,6 +1,7 @@
 //! R-Sym: Symanzik polynomials by brute-force enumeration of spanning trees and spanning 2-forests.
 //! All terms are non-negative, so plain f64 sums are accurate to (#terms)·eps.
-use super::graph::{find, G};
+use super::graph::{find, q, qf, G, Q};
+use num::{Signed, Zero};
 
 #[derive(Clone, Debug)]
 pub struct Sym {
@@ -16,6 +17,13 @@ pub struct Sym {
     /// true if some 2-forest separates the external vertices (momentum must flow between the two trees) although
     /// the momentum actually flowing is (numerically) zero: non-generic kinematics
     pub degenerate_momenta: bool,
+    /// Euclidean norm of the momentum flowing between the two trees of each 2-forest (parallel to `forests`)
+    pub forest_qn: Vec<f64>,
+    /// sum over the external vertices of the 1-norms of their momenta
+    pub pabs: f64,
+    /// largest component of the exact sum of all external momenta (0 for exactly conserving input)
+    pub defect: f64,
+    pub dmom: usize,
 }
 
 fn compress(g: &G) -> (Vec<(usize, usize)>, usize, Vec<usize>) {
@@ -60,6 +68,13 @@ impl Sym {
         let mut mass_sq_terms = vec![];
         let mut degenerate_momenta = false;
         let pscale: f64 = ext.iter().map(|(_, p)| p.iter().map(|a| a * a).sum::<f64>()).fold(0.0, f64::max);
+        // the external momenta are f64 numbers: they conserve momentum up to rounding only. The exact defect is split
+        // evenly between the two sides of every cut, and reported so that tolerances can account for it.
+        let finite_ext = ext.iter().all(|(_, p)| p.iter().all(|a| a.is_finite()));
+        let extq: Vec<Vec<Q>> = if finite_ext { ext.iter().map(|(_, p)| p.iter().map(|&a| q(a)).collect()).collect() } else { vec![] };
+        let mut defect = 0.0f64;
+        let pabs: f64 = ext.iter().map(|(_, p)| p.iter().map(|a| a.abs()).sum::<f64>()).sum();
+        let mut forest_qn = vec![];
         for m in 0..=full {
             let k = (m as u64).count_ones() as usize;
             if k + ncomp0 != nv && k + ncomp0 + 1 != nv {
@@ -111,10 +126,27 @@ impl Sym {
                 let mut c = 0.0;
                 if n_in != 0 && n_in != n_comp {
                     let mut qv = vec![0.0; dmom];
-                    for (v, pm) in &ext {
-                        if in_t1[*v] {
-                            for kk in 0..dmom {
-                                qv[kk] += pm[kk];
+                    if finite_ext {
+                        // exact sum over one side minus half the conservation defect, rounded once
+                        for kk in 0..dmom {
+                            let (mut s1, mut sall) = (Q::zero(), Q::zero());
+                            for (i, (v, _)) in ext.iter().enumerate() {
+                                if in_split[*v] {
+                                    sall += &extq[i][kk];
+                                    if in_t1[*v] {
+                                        s1 += &extq[i][kk];
+                                    }
+                                }
+                            }
+                            defect = defect.max(qf(&sall.abs()));
+                            qv[kk] = qf(&(s1 - sall / Q::from_integer(2.into())));
+                        }
+                    } else {
+                        for (v, pm) in &ext {
+                            if in_t1[*v] {
+                                for kk in 0..dmom {
+                                    qv[kk] += pm[kk];
+                                }
                             }
                         }
                     }
@@ -123,6 +155,7 @@ impl Sym {
                         degenerate_momenta = true;
                     }
                 }
+                let cmom: f64 = c;
                 // mass terms merged: edges joining the two parts
                 for e in 0..ne {
                     let (a, b) = edges[e];
@@ -130,10 +163,11 @@ impl Sym {
                         c += masses2[e];
                     }
                 }
+                forest_qn.push(cmom.sqrt());
                 forests.push((m, c));
             }
         }
-        Sym { ne, nl, trees, forests, mass_sq_terms, masses2, degenerate_momenta }
+        Sym { ne, nl, trees, forests, mass_sq_terms, masses2, degenerate_momenta, forest_qn, pabs, defect, dmom }
     }
     #[inline]
     fn mono(&self, kept: usize, x: &[f64]) -> f64 {
@@ -152,6 +186,11 @@ impl Sym {
         let a: f64 = self.forests.iter().map(|&(m, c)| c * self.mono(m, x)).sum();
         let b: f64 = self.mass_sq_terms.iter().map(|&(m, e, c)| c * self.mono(m, x) * x[e]).sum();
         a + b
+    }
+    /// bound on the change of F when every component of every momentum flowing through a cut is uncertain by `delta`
+    pub fn f_kin_err(&self, x: &[f64], delta: f64) -> f64 {
+        let d = self.dmom as f64;
+        self.forests.iter().zip(&self.forest_qn).filter(|(_, qn)| **qn > 0.0).map(|(&(m, _), &qn)| (2.0 * qn * delta * d.sqrt() + d * delta * delta) * self.mono(m, x)).sum()
     }
     pub fn v(&self, x: &[f64]) -> f64 {
         self.f(x) / self.u(x)
